@@ -185,3 +185,29 @@ MUTANTS += [
      "edits": [("src/image.rs", "        for pixel in self.iter() {\n            writer.write_all(&pixel.to_rgba()).map_err(|err| {\n                ser::Error::custom(format!(\"[Image] faield to serialize data: {err}\"))\n            })?;\n        }\n",
                 "        self.iter()\n            .try_for_each(|pixel| writer.write_all(&pixel.to_rgba()))\n            .map_err(|err| {\n                ser::Error::custom(format!(\"[Image] faield to serialize data: {err}\"))\n            })?;\n")]},
 ]
+
+
+# ---- robustness round 5: named constants for the accepted layouts, the checked product spelled as a match, split_once for the key/value cut ----
+_SPLITN = "                let mut iter = attrs.splitn(2, '=');\n                let key = iter.next().unwrap_or_default().trim();\n                let value = iter.next().unwrap_or_default().trim();\n"
+_EXPECTED = "                let expected_size = channels\n                    .checked_mul(size.height)\n                    .and_then(|count| count.checked_mul(size.width));\n"
+_MATCHES = "                            if !matches!(channels, 1 | 3 | 4) {"
+_CHDEF = "                let mut channels: usize = 3;\n"
+MUTANTS += [
+    {"id": "C19-benign-face-split-once", "prop": "C19", "benign": True,
+     "edits": [("src/face.rs", _SPLITN, "                let (key, value) = attrs.split_once('=').unwrap_or((attrs, \"\"));\n                let (key, value) = (key.trim(), value.trim());\n")]},
+    {"id": "C19-face-split-once-colon", "prop": "C19", "expect": "kv-separator",
+     "edits": [("src/face.rs", _SPLITN, "                let (key, value) = attrs.split_once(':').unwrap_or((attrs, \"\"));\n                let (key, value) = (key.trim(), value.trim());\n")]},
+    {"id": "C19-benign-image-named-channel-constants", "prop": "C19", "benign": True,
+     "edits": [("src/image.rs", _MATCHES, "                            const SUPPORTED_CHANNELS: [usize; 3] = [1, 3, 4];\n                            if !SUPPORTED_CHANNELS.contains(&channels) {"),
+               ("src/image.rs", _CHDEF, "                const DEFAULT_CHANNELS: usize = 3;\n                let mut channels: usize = DEFAULT_CHANNELS;\n")]},
+    {"id": "C19-image-named-channel-constants-extra-layout", "prop": "C19", "expect": "IMAGE-CHANNELS",
+     "edits": [("src/image.rs", _MATCHES, "                            const SUPPORTED_CHANNELS: [usize; 4] = [1, 2, 3, 4];\n                            if !SUPPORTED_CHANNELS.contains(&channels) {")]},
+    {"id": "C19-image-named-default-not-accepted", "prop": "C19", "expect": "IMAGE-CHANNELS",
+     "edits": [("src/image.rs", _CHDEF, "                const DEFAULT_CHANNELS: usize = 2;\n                let mut channels: usize = DEFAULT_CHANNELS;\n")]},
+    {"id": "C19-benign-image-size-product-match", "prop": "C19", "benign": True,
+     "edits": [("src/image.rs", _EXPECTED, "                let expected_size = match channels.checked_mul(size.height) {\n                    Some(count) => count.checked_mul(size.width),\n                    None => None,\n                };\n")]},
+    {"id": "C19-image-size-product-match-unchecked-factor", "prop": "C19", "expect": "IMAGE-SIZE",
+     "edits": [("src/image.rs", _EXPECTED, "                let expected_size = match channels.checked_mul(size.height) {\n                    Some(count) => Some(count.wrapping_mul(size.width)),\n                    None => None,\n                };\n")]},
+    {"id": "C19-image-size-product-two-factors", "prop": "C19", "expect": "IMAGE-SIZE",
+     "edits": [("src/image.rs", _EXPECTED, "                let expected_size = channels.checked_mul(size.height);\n")]},
+]
